@@ -374,7 +374,9 @@ def run_verus_unit(name, prop, tier, keep=False):
 # allocator-layout bookkeeping (trips on std's in-place `collect` specialisation)
 UNDECIDED_KANI = ("unwinding assertion", "unsupported", "not currently supported", "is not supported",
                   "rust_dealloc must be called on an object whose allocated size matches its layout",
-                  "rust_realloc must be called on an object whose allocated size matches its layout")
+                  "rust_realloc must be called on an object whose allocated size matches its layout",
+                  "free argument must be NULL or valid pointer", "free argument must be dynamic object", "free argument has offset zero",
+                  "double free", "free called for new[] object", "free called for stack-allocated object")
 
 
 def run_kani(prop, tier, harnesses):
